@@ -251,4 +251,49 @@ def badContinuations : Bool → List (List Char) → List (List Char × Option (
       | q :: _ => (if startsBlank q then [] else [(pl, some q)]) ++ badContinuations true rest
     else badContinuations false rest
 
+/-! ### what kind of line is it? (second half of the property: every written line is an instruction, a comment or a
+    continuation) -/
+
+/-- the instruction names of SHELXL (manual; SHELXL compares the first four characters, case-insensitively) -/
+def keywords : List String :=
+  ["ABIN", "ACTA", "AFIX", "ANIS", "ANSC", "ANSR", "BASF", "BIND", "BLOC", "BOND", "BUMP", "CELL", "CGLS", "CHIV", "CONF", "CONN", "DAMP", "DANG", "DEFS", "DELU", "DFIX", "DISP", "EADP", "END", "EQIV", "EXTI", "EXYZ", "FEND", "FLAT", "FMAP", "FRAG", "FREE", "FVAR", "GRID", "HFIX", "HKLF", "HOPE", "HTAB", "ISOR", "LATT", "LAUE", "LIST", "L.S.", "MERG", "MOLE", "MORE", "MOVE", "MPLA", "NCSY", "NEUT", "OMIT", "PART", "PLAN", "PRIG", "REM", "RESI", "RIGU", "RTAB", "SADI", "SAME", "SFAC", "SHEL", "SIMU", "SIZE", "SLIM", "SPEC", "STIR", "SUMP", "SWAT", "SYMM", "TEMP", "TIME", "TITL", "TWIN", "TWST", "UNIT", "WGHT", "WIGL", "WPDB", "XNPD", "ZERR"]
+
+/-- the keyword a token stands for: upper case, residue suffix (`SADI_CCF3`, `ANIS_*`) removed, four characters -/
+def keywordOf (t : List Char) : String := String.ofList (((t.takeWhile (· ≠ '_')).map Char.toUpper).take 4)
+
+def isNumberTok (t : List Char) : Bool :=
+  match t with
+  | [] => false
+  | c :: cs =>
+    let body := if c == '-' || c == '+' then cs else c :: cs
+    body.any Char.isDigit && body.all (fun x => x.isDigit || x == '.' || x == 'e' || x == 'E' || x == '-' || x == '+')
+
+/-- `name sfac x y z …` -/
+def isAtomLine (toks : List (List Char)) : Bool :=
+  match toks with
+  | name :: rest => (match name with | c :: _ => c.isAlpha | [] => false) && rest.length ≥ 4 && (rest.take 4).all isNumberTok
+  | [] => false
+
+/-- class of one physical line; `inside`: the previous line of the instruction was flagged as continued -/
+def lineClass (inside : Bool) (pl : List Char) : String :=
+  if inside then (if startsBlank pl then "continuation" else "continuation-not-blank")
+  else if allBlank pl then "blank"
+  else if startsBlank pl then "comment"
+  else match tokens pl with
+    | [] => "blank"
+    | t :: _ =>
+      if t.head? == some '!' then "comment"
+      else if t.head? == some '+' && !isNumberTok t then "include"
+      else if keywords.contains (keywordOf t) then (if keywordOf t == "REM" then "comment" else "instruction")
+      else if isAtomLine (tokens (code pl)) then "atom"
+      else "unknown"
+
+/-- the classes of the physical lines of a file, read as SHELXL reads them -/
+def lineClasses : Bool → List (List Char) → List (String × List Char)
+  | _, [] => []
+  | inside, pl :: rest =>
+    let c := lineClass inside pl
+    let next := (inside || !(c == "comment" || c == "blank")) && flaggedC pl
+    (c, pl) :: lineClasses next rest
+
 end Shelx.C06
